@@ -300,10 +300,13 @@ func c06VetoAndMatrixGrids(s *Shard) {
 				}
 			}
 		}
-		if !dom {
-			return
+		if !dom || (quick(s) && (idx[0]+idx[4]+idx[8])%2 == 1) {
+			return // quick tier: half of the value grid
 		}
 		Product([]int{3, 3, 3, 2}, func(o []int) {
+			if quick(s) && o[3] == 0 {
+				return
+			}
 			cfg := eleCfg{N: 3, Vals: vals, Types: []string{"gain", "gain", "gain"}, Thr: []thr{shapes[o[0]], shapes[o[1]], shapes[o[2]]}, K: ks[o[3]], Dist: eleDists[0]}
 			c := &Case{Prop: "C06", Kind: "veto", Params: M{"cfg": cfg}}
 			s.Evals++
